@@ -191,13 +191,8 @@ func TestVerifC12Conc(t *testing.T) {
 					}
 					vNormalize(&want)
 					for _, p := range listing {
-						var got vReport
-						dec := json.NewDecoder(bytes.NewReader(after[p]))
-						if err := dec.Decode(&got); err != nil {
-							continue
-						}
-						var rest json.RawMessage
-						if err := dec.Decode(&rest); err != io.EOF {
+						got, serr := c12StrictReport(after[p])
+						if serr != nil {
 							continue
 						}
 						vNormalize(&got)
